@@ -202,9 +202,11 @@ claim("C01", "model_checking", "TLA+ transcription of Go's integer semantics (Wa
       "WaInt.tla defines wrap-around + - * & | ^ &^, truncating / % (MIN / -1 = MIN, MIN % -1 = 0), shifts by unsigned counts (count >= width gives 0 or the sign fill), the six "
       "comparisons, unary - ^ and every integer conversion, at int, uint, i32, i64, u8, u16, u32, u64 (quick: i32, u8, i64). TLC evaluates every (type, operator, operand pair) over "
       "14 boundary operands and 13 shift counts; each case runs through a Wa function whose operands are parameters, in programs compiled and executed by the real toolchain "
-      "(a case that stops the program is reported and the rest re-run). Slice/append aliasing is decided by WaStore.tla (second part of this check).",
-      "Trusted: TLC, BV.tla, the renderer. Decided: the integer kernel and the slice store model only; floats, strings, maps (C13), closures, methods, interfaces, defer are not in "
-      "the case space. Open known findings: signed MIN / -1 traps; shift counts are taken modulo the width.",
+      "(a case that stops the program is reported and the rest re-run). Slice/append aliasing is decided by WaStore.tla; zero values and initialisers of composite types in 27 contexts "
+      "by WaGen.tla; maps by the WaMap/FiniteMap transitions of C13; struct/array copies, pointer/slice/closure/method aliasing, defer (argument evaluation time, LIFO, named results) by "
+      "WaProc.tla, an interpreter for 15 statement atoms whose every sequence up to length 3 (4 in thorough) is run as a Wa function.",
+      "Trusted: TLC, BV.tla, the renderer. Decided: the integer kernel and the four models named above; floats, strings as byte sequences, interfaces/type switches and control flow beyond calls are not in "
+      "the case space; Go-style value-receiver methods (`func (s: S) M()`) are not generated: they are accepted by the type checker but compile to an invalid module (undocumented feature). Open known findings: signed MIN / -1 traps; shift counts are taken modulo the width.",
       "DESIGN.md section 4 (language kernel)")
 claim("C14", "model_checking", "TLA+ declarative definitions of the library functions (StdLib.tla) evaluated by TLC on a bounded argument space + generated Wa programs calling the real library",
       "StdLib.tla defines Index, LastIndex, Contains, Count, HasPrefix/Suffix, Split, Join, Fields, Replace (including the empty-pattern rule), Repeat, Compare, EqualFold, Trim*, ToUpper/ToLower; "
